@@ -1,14 +1,17 @@
 ------------------------------- MODULE MCOwn -------------------------------
 EXTENDS Own
-CONSTANTS Vals, Names, Merkles, MAXH
-Init == /\ providers = <<>> /\ feeds = <<>> /\ primary = <<>> /\ blocks = {} /\ files = {} /\ height = 1
+CONSTANTS Vals, Names, Merkles, MAXH,
+          Parts   \* which resource groups take steps: subset of {"prov", "feeds", "files", "notif"} (keeps the quick runs small)
+Init == /\ providers = <<>> /\ feeds = <<>> /\ primary = <<>> /\ blocks = {} /\ files = {} /\ inbox = {} /\ height = 1
         /\ last = [a |-> "init", s |-> "none", ok |-> TRUE]
-Next == \/ \E s \in Acc, v \in Vals : InitProvider(s, v) \/ SetField(s, "ip", v) \/ SetField(s, "keybase", v)
-        \/ \E s \in Acc : Shutdown(s)
-        \/ \E s \in Acc, c \in Acc : AddClaimer(s, c) \/ RmClaimer(s, c) \/ BlockSender(s, c)
-        \/ \E s \in Acc, n \in Names : CreateFeed(s, n) \/ MakePrimary(s, n) \/ \E d \in Vals : UpdateFeed(s, n, d)
-        \/ \E s \in Acc, m \in Merkles : PostFile(s, m) \/ \E st \in 1..MAXH : DeleteFile(s, m, st)
-        \/ \E s \in Acc, c \in Acc, m \in Merkles : ContractPost(s, c, m)
+P(x) == x \in Parts
+Next == \/ P("prov") /\ \E s \in Acc, v \in Vals : InitProvider(s, v) \/ SetField(s, "ip", v) \/ SetField(s, "keybase", v)
+        \/ P("prov") /\ \E s \in Acc : Shutdown(s)
+        \/ P("prov") /\ \E s \in Acc, c \in Acc : AddClaimer(s, c) \/ RmClaimer(s, c)
+        \/ P("notif") /\ \E s \in Acc, c \in Acc : BlockSender(s, c) \/ Notify(s, c) \/ DelNotif(s, c)
+        \/ P("feeds") /\ \E s \in Acc, n \in Names : CreateFeed(s, n) \/ MakePrimary(s, n) \/ \E d \in Vals : UpdateFeed(s, n, d)
+        \/ P("files") /\ \E s \in Acc, m \in Merkles : PostFile(s, m) \/ \E st \in 1..MAXH : DeleteFile(s, m, st)
+        \/ P("files") /\ \E s \in Acc, c \in Acc, m \in Merkles : ContractPost(s, c, m)
         \/ (height < MAXH /\ Tick)
 View == vars
 PC11 == [][C11_Own]_<<vars, last>>
